@@ -1,6 +1,7 @@
 package harness
 
 import (
+	"sort"
 	"testing"
 )
 
@@ -29,6 +30,7 @@ func driveStore(t *testing.T, in, out string, seed int64) {
 		for n := range names {
 			ns = append(ns, n)
 		}
+		sort.Strings(ns) // the registration is part of the replayed history: same order in every process
 		l.EnsureRelayer(ns)
 		tw.Emit(storeLine(l, M{"ev": "Reset", "b": bi, "i": 0, "res": "ok", "args": M{}, "sig": "Reset"}))
 		for si, st := range b {
